@@ -17,8 +17,34 @@ from harness.core import Check, Outcome, SubCheck
 
 US = 1_000_000
 Y100_US = 100 * 365 * 86400 * US
-NAME = st.builds(lambda a, b: a + b, st.sampled_from(string.ascii_letters + "_"), st.text(string.ascii_letters + string.digits + "_-", max_size=12))
-IDS = st.text(string.ascii_letters + string.digits + "_-", min_size=1, max_size=16)
+_PRINTABLE = [chr(i) for i in range(32, 127)] + ["é", "\n"]
+_ACCEPTED: dict = {}
+
+
+def accepted(which: str) -> tuple[list, list, list]:
+    """(first characters, later characters, later characters that are not alphanumeric) the library's own validator accepts.
+    The property speaks of "every name the validators accept", so the input domain is read off the validators of the tree
+    under test rather than written down here (on the pinned tree: letters and '_' / letters, digits, '_' and '-')."""
+    if which not in _ACCEPTED:
+        from repid._utils import VALID_ID, VALID_NAME
+
+        pat = VALID_NAME if which == "name" else VALID_ID
+        first = [ch for ch in _PRINTABLE if pat.fullmatch(ch)]
+        rest = [ch for ch in _PRINTABLE if pat.fullmatch(first[0] + ch)]
+        _ACCEPTED[which] = (first, rest, [ch for ch in rest if not ch.isalnum()] or rest)
+    return _ACCEPTED[which]
+
+
+@st.composite
+def _lib_text(draw, which, max_size):
+    first, rest, special = accepted(which)
+    head = draw(st.sampled_from(first))
+    tail = draw(st.text(st.one_of(st.sampled_from(rest), st.sampled_from(rest), st.sampled_from(special)), max_size=max_size - 1))
+    return head + tail
+
+
+NAME = _lib_text("name", 13)
+IDS = _lib_text("id", 16)
 TEXT = st.text(max_size=20)
 
 
@@ -145,6 +171,9 @@ def key_case(draw):
     k1 = key()
     k2 = draw(st.one_of(st.builds(key), st.just({**k1, "topic": k1["topic"] + draw(st.sampled_from(["a", "_", "-", "0"]))}),
                         st.just({**k1, "id": k1["id"] + "0"}), st.just({**k1, "queue": k1["queue"] + "_"}),
+                        # a queue named like another queue's delayed / dead-letter companion, with every separator the validator lets through
+                        st.just({**k1, "queue": k1["queue"] + draw(st.sampled_from(accepted("name")[2]))
+                                 + draw(st.sampled_from(["delayed", "dead", "d", "n", "5"]))}),
                         st.just({**k1, "prio": k1["prio"] + 1})))
     return {"k1": k1, "k2": k2}
 
@@ -163,18 +192,24 @@ def run_keys(c: dict) -> Outcome:
         except ValueError as e:
             out.v("valid-key-rejected", f"RoutingKey rejected a valid key {kj}: {e}")
             return out
+    def parsed(fn, *args):
+        try:
+            return fn(*args)
+        except Exception as e:  # noqa: BLE001  (a key the validators accepted must be decodable: raising is a wrong answer, not a rejection)
+            return f"raised {type(e).__name__}: {e}"
+
     for k in keys:
         full, short = mnc(k), mnc(k, short=True)
-        if parse_message_name(full) != (k.id_, k.topic, k.queue, k.priority):
-            out.v("redis-name-roundtrip", f"parse_message_name(mnc(k))={parse_message_name(full)} for {k}")
-        if parse_short_message_name(short) != (k.topic, k.id_):
-            out.v("redis-short-roundtrip", f"parse_short_message_name({short!r})={parse_short_message_name(short)} for {k}")
+        if parsed(parse_message_name, full) != (k.id_, k.topic, k.queue, k.priority):
+            out.v("redis-name-roundtrip", f"parse_message_name(mnc(k))={parsed(parse_message_name, full)} for {k}")
+        if parsed(parse_short_message_name, short) != (k.topic, k.id_):
+            out.v("redis-short-roundtrip", f"parse_short_message_name({short!r})={parsed(parse_short_message_name, short)} for {k}")
         for kw, marker in (({}, "n"), ({"delayed": True}, "d"), ({"dead": True}, "dead")):
             qn = qnc(k.queue, k.priority, **kw)
-            if full_message_name_from_short(short, qn) != full:
+            if parsed(full_message_name_from_short, short, qn) != full:
                 out.v("redis-full-from-short", f"full_message_name_from_short({short!r}, {qn!r}) != {full!r}")
-            if get_queue_marker(qn) != marker:
-                out.v("redis-queue-marker", f"get_queue_marker({qn!r})={get_queue_marker(qn)!r}, expected {marker!r}")
+            if parsed(get_queue_marker, qn) != marker:
+                out.v("redis-queue-marker", f"get_queue_marker({qn!r})={parsed(get_queue_marker, qn)!r}, expected {marker!r}")
         if not short.startswith(k.topic + ":"):
             out.v("redis-topic-prefix", f"{short!r} does not start with its topic prefix")
     a, b = keys
